@@ -64,6 +64,11 @@ static int pick_released(vprng_t *r)
 	return n ? c[vp_u(r, (uint32_t)n)] : -1;
 }
 
+/* failpoint: the next allocation made while armed fails (the harness arms it only around one library call) */
+static int fail_alloc_armed; static long n_enomem;
+void *__real_malloc(size_t n); void *__real_calloc(size_t a, size_t b);
+void *__wrap_malloc(size_t n) { if (fail_alloc_armed) { fail_alloc_armed = 0; errno = ENOMEM; return NULL; } return __real_malloc(n); }
+void *__wrap_calloc(size_t a, size_t b) { if (fail_alloc_armed) { fail_alloc_armed = 0; errno = ENOMEM; return NULL; } return __real_calloc(a, b); }
 static void run_case(long kase)
 {
 	vprng_t r; vp_seed(&r, vp.seed, (uint64_t)kase);
@@ -84,6 +89,22 @@ static void run_case(long kase)
 		if (k < 22 && nM < MAXH) { /* create */
 			int sz = 8 + (int)vp_u(&r, 120);
 			qb_handle_t h = 0;
+			if (vp_chance(&r, 1, 8)) {
+				/* the allocation of the object fails: -ENOMEM, and it is as if the call had not been made */
+				qb_handle_t sentinel = 0x5a5a5a5a5a5a5a5aULL; h = sentinel; n_enomem++;
+				fail_alloc_armed = 1; int rc0 = qb_hdb_handle_create(&db, sz, &h); int fired = !fail_alloc_armed; fail_alloc_armed = 0;
+				if (!fired) { vp_diag("hdb:failpoint-not-reached", "create made no allocation"); }
+				else {
+					if (rc0 != -ENOMEM) vp_violation("hdb:create-enomem-not-reported", "create with a failing allocation returned %d", rc0);
+					if (rc0 != 0 && h != sentinel) {
+						/* a handle nobody was given must not resolve */
+						void *pi = NULL; if (qb_hdb_handle_get(&db, h, &pi) == 0) { vp_violation("hdb:failed-create-left-a-live-handle", "get on the value left in handle_out succeeds"); qb_hdb_handle_put(&db, h); }
+					}
+					if (rc0 == 0) { qb_hdb_handle_put(&db, h); qb_hdb_handle_destroy(&db, h); }
+				}
+				TR("E ");
+				continue;
+			}
 			int rc = qb_hdb_handle_create(&db, sz, &h);
 			if (rc != 0) { vp_violation("hdb:create-failed", "create(size %d) returned %d", sz, rc); continue; }
 			void *inst = NULL;
@@ -241,6 +262,7 @@ int main(int argc, char **argv)
 	for (long k = vp.case_from; k < vp.case_to; k++) { vp_begin_case(k); run_case(k); }
 	vp_count("ops", n_ops); vp_count("stale_or_pending_rejected", n_stale_rejected); vp_count("slot_reuses", n_reuse);
 	vp_count("forged_handles_tried", n_forged); vp_count("iterations", n_iter); vp_count("destructor_calls", n_dtor);
+	vp_count("creates_with_failing_allocation", n_enomem);
 	vp_count("gets_ok", n_get_ok);
 	vp_finish();
 	return 0;
